@@ -120,7 +120,7 @@ PROPS = {
     note=E1_NOTE,
     technique=E1_TECH,
     e1=[dict(tu="c20_ndarray.cpp"), dict(tu="c20b_mutable.cpp"), dict(tu="c20b_mutable.cpp", flags=["-DVERIF_RT_KIND"]), dict(tu="c20c_cast.cpp"), dict(tu="c20c_cast.cpp", flags=["-DVERIF_RT_KIND"])],
-    e2=[dict(rule="R-MEMCOPY", dirs=["nmtools/array/ndarray"])],
+    e2=[dict(rule="R-MEMCOPY", dirs=["nmtools/array/ndarray"]), dict(rule="R-SIBWRITE")],
     e3=[dict(group="C20")],
     rule=E1_RULE,
     explanation="post-state obligations over a fully symbolic array object and request.",
@@ -189,7 +189,7 @@ PROPS["C12"] = dict(
     note=E2_NOTE + " Dominance is computed on clang's CFG of the instantiated evaluator members (if-constexpr resolved). " + E1_NOTE,
     technique="static: CFG dominance rule over instantiated evaluator code (custom libTooling extractor), sibling agreement of identity sources and of the float/double back-end tables; " + E1_TECH + " (exhaustive small-shape enumeration of the broadcast enumerator)",
     e1=[dict(tu="c12_enum.cpp")],
-    e2=[dict(rule="R-SIMD"), dict(rule="R-AXISNORM.simd"), dict(rule="R-SIMDSIB")],
+    e2=[dict(rule="R-SIMD"), dict(rule="R-AXISNORM.simd"), dict(rule="R-SIMDSIB"), dict(rule="R-SIMDATTR")],
     rule="E2: one instance per packed access / scalar tail store / accumulator seed in each instantiated evaluator member; distinct by (instantiation, source line)",
     explanation="Never reading or writing outside the buffers is, for the linear paths, exactly the loop-guard dominance property; seeding with identity is necessary for reductions other than add.",
     not_decided="offsets computed by simd/index/ufunc.hpp enumerators (non-linear in run-time shapes), matmul tiles, element values",
